@@ -376,14 +376,15 @@ theorem disable_none (b : Behavior) (m : Model) (h : Handler) (st : SrvState) (r
 
 /-! ### which requests change the session when the defaults are on -/
 
-/-- defaults on, a handler that (like `RandomUDSServer`'s) never fabricates session-control or reset replies:
-    the session changes only through a parsed DiagnosticSessionControl request whose sub-function is listed
-    for the active session, and it changes to exactly that sub-function -/
+/-- defaults on, a handler that (like `RandomUDSServer`'s) never fabricates session-control replies: the session
+    changes only through a parsed DiagnosticSessionControl request whose sub-function is listed for the active
+    session - to exactly that sub-function - or through a positive ECUReset reply of the handler - to session 1 -/
 theorem session_change_needs_listed_dsc (m : Model) (h : Handler) (st st' : SrvState) (r : Req) (reply : Option Resp)
     (hr : Ready m st) (hne : r.pdu ≠ [])
-    (hh : ∀ x, h st r = some x → (∀ t rec, x ≠ .dsc t rec) ∧ (∀ p, x ≠ .reset p))
+    (hh : ∀ x, h st r = some x → ∀ t rec, x ≠ .dsc t rec)
     (hok : respond allOn m h st r = .ok st' reply) (hch : st'.session ≠ st.session) :
-    r.sid = sidDSC ∧ r.raw = false ∧ st'.session = r.subFn ∧ subIn m st.session sidDSC r.subFn = true := by
+    (r.sid = sidDSC ∧ r.raw = false ∧ st'.session = r.subFn ∧ subIn m st.session sidDSC r.subFn = true) ∨
+    (st'.session = 1 ∧ ∃ p, h st r = some (.reset p)) := by
   obtain ⟨x, hx, hcase⟩ := session_changes_only_on_positive_dsc allOn m h st st' r reply hok hch
   rw [answer_allOn m h st r hr hne] at hx
   have hx : isoAnswer m h st r = x := by simpa using hx
@@ -414,13 +415,12 @@ theorem session_change_needs_listed_dsc (m : Model) (h : Handler) (st st' : SrvS
       · have : r.subFn = t := by
           have e' := e; simp at e'; exact e'.1
         have hck : subFnChecked r = true := by simp [subFnChecked, Req.hasSubFn, hsid, subFnServices, sidDSC, sidRoutine]
-        refine ⟨hsid, hraw, by rw [hs', this], ?_⟩
+        refine Or.inl ⟨hsid, hraw, by rw [hs', this], ?_⟩
         rw [hck] at h5
         rw [← hsid]
         simpa using h5
       · simp at e
     · simp only [g1, Bool.false_eq_true, if_false] at hx
-      exfalso
       split at hx
       · subst hx; rcases hcase with ⟨t, rec, e, _⟩ | ⟨p, e, _⟩ <;> simp at e
       · split at hx
@@ -429,9 +429,175 @@ theorem session_change_needs_listed_dsc (m : Model) (h : Handler) (st st' : SrvS
           | none => rw [hhr] at hx; simp at hx; subst hx; rcases hcase with ⟨t, rec, e, _⟩ | ⟨p, e, _⟩ <;> simp at e
           | some y =>
             rw [hhr] at hx; simp at hx; subst hx
-            have := hh y hhr
-            rcases hcase with ⟨t, rec, e, _⟩ | ⟨p, e, _⟩
-            · exact this.1 t rec e
-            · exact this.2 p e
+            rcases hcase with ⟨t, rec, e, _⟩ | ⟨p, e, h1⟩
+            · exact absurd e (hh y hhr t rec)
+            · exact Or.inr ⟨h1, p, by rw [e]⟩
+
+/-- an ECU model is closed when the default session is offered and session control only ever lists offered sessions
+    (what `RandomUDSServer.randomize` builds) -/
+structure Closed (m : Model) : Prop where
+  dflt : 1 ∈ m.sessions
+  dsc : ∀ s ∈ m.sessions, ∀ t, subIn m s sidDSC t = true → t ∈ m.sessions
+
+/-- defaults on: the server never leaves the sessions its model offers - also across the inactivity reset -/
+theorem session_stays_offered (m : Model) (h : Handler) (ts : TState) (now : Nat) (r : Req)
+    (hr : Ready m ts.st) (hc : Closed m) (hne : r.pdu ≠ [])
+    (hh : ∀ st x, h st r = some x → ∀ t rec, x ≠ .dsc t rec) :
+    Ready m (handleAt allOn m h ts now r).1.st := by
+  have hr0 : Ready m (if now - ts.lastActive > idleLimit then ts.st.reset else ts.st) := by
+    split
+    · exact ⟨hr.wf, hc.dflt, hr.listed⟩
+    · exact hr
+  unfold handleAt
+  simp only
+  generalize (if now - ts.lastActive > idleLimit then ts.st.reset else ts.st) = st0 at hr0
+  cases hres : respond allOn m h st0 r with
+  | crash c => exact absurd hres (respond_never_crashes_allOn m h st0 r hr0 hne c)
+  | ok st' reply =>
+    simp only
+    by_cases hch : st'.session = st0.session
+    · exact ⟨hr0.wf, by rw [hch]; exact hr0.sess, hr0.listed⟩
+    · rcases session_change_needs_listed_dsc m h st0 st' r reply hr0 hne (hh st0) hres hch with
+        ⟨_, _, hs, hl⟩ | ⟨h1, _⟩
+      · exact ⟨hr0.wf, by rw [hs]; exact hc.dsc _ hr0.sess _ hl, hr0.listed⟩
+      · exact ⟨hr0.wf, by rw [h1]; exact hc.dflt, hr0.listed⟩
+
+/-- hence for every history of non-empty requests, at any times: the state stays in the model ... -/
+theorem history_stays_offered (m : Model) (h : Handler) (hc : Closed m)
+    (hh : ∀ st r x, h st r = some x → ∀ t rec, x ≠ .dsc t rec) :
+    ∀ (reqs : List (Nat × Req)) (ts : TState), Ready m ts.st → (∀ p ∈ reqs, p.2.pdu ≠ []) →
+      Ready m (run allOn m h ts reqs).st := by
+  intro reqs
+  induction reqs with
+  | nil => intro ts hr _; exact hr
+  | cons p rest ih =>
+    intro ts hr hall
+    obtain ⟨now, r⟩ := p
+    simp only [run]
+    apply ih
+    · exact session_stays_offered m h ts now r hr hc (hall (now, r) (by simp)) (fun st x => hh st r x)
+    · intro q hq; exact hall q (by simp [hq])
+
+/-- ... and no request of the history (nor the next one) hits an `assert` or an index error -/
+theorem history_never_crashes (m : Model) (h : Handler) (hc : Closed m)
+    (hh : ∀ st r x, h st r = some x → ∀ t rec, x ≠ .dsc t rec)
+    (reqs : List (Nat × Req)) (ts : TState) (hr : Ready m ts.st) (hall : ∀ p ∈ reqs, p.2.pdu ≠ [])
+    (now : Nat) (r : Req) (hne : r.pdu ≠ []) (c : Crash) :
+    (handleAt allOn m h (run allOn m h ts reqs) now r).2 ≠ .crash c := by
+  have hr' := history_stays_offered m h hc hh reqs ts hr hall
+  generalize run allOn m h ts reqs = ts' at hr'
+  have hr0 : Ready m (if now - ts'.lastActive > idleLimit then ts'.st.reset else ts'.st) := by
+    split
+    · exact ⟨hr'.wf, hc.dflt, hr'.listed⟩
+    · exact hr'
+  unfold handleAt
+  simp only
+  generalize (if now - ts'.lastActive > idleLimit then ts'.st.reset else ts'.st) = st0 at hr0
+  cases hres : respond allOn m h st0 r with
+  | crash c' => exact absurd hres (respond_never_crashes_allOn m h st0 r hr0 hne c')
+  | ok st' reply => simp
+
+/-! ### seed / key sequencing of `RandomUDSServer.security_access` -/
+
+/-- defaults on, the handler of `RandomUDSServer` (its random parts an oracle that never fabricates SecurityAccess
+    replies): a level is unlocked only by a parsed sendKey request whose type follows the type of the last
+    SecurityAccess reply and whose key equals the seed of that reply; the level unlocked is that reply's type -/
+theorem unlock_requires_seed_then_key (m : Model) (orc : Handler) (seedOf : SrvState → Req → Bytes)
+    (st st' : SrvState) (r : Req) (reply : Option Resp) (l : Int)
+    (hr : Ready m st) (hne : r.pdu ≠ [])
+    (horc : ∀ x, orc st r = some x → ∀ t sd, x ≠ .sa t sd)
+    (hok : respond allOn m (rndHandler orc seedOf) st r = .ok st' reply)
+    (hch : st'.level ≠ st.level) (hl : st'.level = some l) :
+    r.sid = sidSA ∧ r.raw = false ∧
+      ∃ t0 seed, st.lastSA = some (t0, seed) ∧ r.subFn = t0 + 1 ∧ r.pdu.drop 2 = seed ∧ l = t0 := by
+  obtain ⟨x, hx, hcase⟩ := security_only_on_positive_even_sa allOn m _ st st' r reply hok hch
+  rw [answer_allOn m _ st r hr hne] at hx
+  have hx : isoAnswer m (rndHandler orc seedOf) st r = x := by simpa using hx
+  rcases hcase with ⟨t, sd, e, ht, hlv⟩ | ⟨_, hnone⟩
+  · subst e
+    unfold isoAnswer at hx
+    cases hn : isoNegative m st r with
+    | some n => rw [hn] at hx; simp at hx
+    | none =>
+      rw [hn] at hx
+      simp only at hx
+      unfold isoService at hx
+      split at hx
+      · simp at hx
+      · split at hx
+        · simp at hx
+        · split at hx
+          · simp at hx
+          · unfold rndHandler at hx
+            by_cases g : (!r.raw && r.sid == sidSA) = true
+            · have hraw : r.raw = false := by
+                cases hh : r.raw <;> simp [hh] at g ⊢
+              have hsid : r.sid = sidSA := by
+                rw [hraw] at g; simpa using g
+              simp only [g, if_true] at hx
+              by_cases hodd : r.subFn % 2 = 1
+              · simp only [hodd] at hx
+                simp at hx
+                omega
+              · have hb : (r.subFn % 2 == 1) = false := by simpa using hodd
+                simp only [hb, Bool.false_eq_true, if_false] at hx
+                cases hsa : st.lastSA with
+                | none => rw [hsa] at hx; simp at hx
+                | some p =>
+                  obtain ⟨t0, seed⟩ := p
+                  rw [hsa] at hx
+                  simp only at hx
+                  by_cases h1 : r.subFn ≠ t0 + 1
+                  · simp [h1] at hx
+                  · have h1' : r.subFn = t0 + 1 := by omega
+                    by_cases h2 : (r.pdu.drop 2 == seed) = true
+                    · simp only [h1', h2, if_true] at hx
+                      have ht' : t0 + 1 = t := by
+                        have hx' := hx; simp at hx'; exact hx'.1
+                      refine ⟨hsid, hraw, t0, seed, rfl, h1', by simpa using h2, ?_⟩
+                      rw [hl] at hlv
+                      have : l = (t : Int) - 1 := by simpa using hlv
+                      omega
+                    · simp [h1', h2] at hx
+            · simp only [g, Bool.false_eq_true, if_false] at hx
+              cases ho : orc st r with
+              | none => rw [ho] at hx; simp at hx
+              | some y => rw [ho] at hx; simp at hx; exact absurd hx (horc y ho t sd)
+  · rw [hl] at hnone; simp at hnone
+
+/-! ### the hypotheses are satisfiable: a concrete ECU -/
+
+/-- two sessions; session control, tester present, an identifier service in the default session; security access and
+    routine control in session 3 -/
+def exModel : Model := Model.ofAssoc
+  [(1, [(0x10, some [1, 3]), (0x3E, some [0]), (0x22, none)]),
+   (3, [(0x10, some [1]), (0x27, some [1, 2]), (0x31, some [1, 2, 3])])]
+
+example : Ready exModel ⟨3, none, none⟩ :=
+  ⟨ofAssoc_wf _, by decide, ofAssoc_listed _ (by decide)⟩
+
+example : Closed exModel := by
+  refine ⟨by decide, ?_⟩
+  intro s hs t ht
+  have hs' : s = 1 ∨ s = 3 := by simpa [exModel, Model.ofAssoc] using hs
+  rcases hs' with rfl | rfl <;>
+    simp [subIn, exModel, Model.ofAssoc, List.lookup, sidDSC] at ht ⊢ <;> first | exact ht | exact Or.inl ht
+
+/-- `10 83` in the default session: session 3 is activated, the positive reply suppressed -/
+example : respond allOn exModel (fun _ _ => none) ⟨1, none, none⟩ ⟨[0x10, 0x83], false⟩ = .ok ⟨3, none, none⟩ none := by
+  decide
+
+/-- `27 02 AA` in session 3 after seed `AA` for level 1: unlocked; the same in session 1: SNSIAS wins -/
+example : respond allOn exModel (rndHandler (fun _ _ => none) (fun _ _ => [])) ⟨3, none, some (1, [0xAA])⟩
+    ⟨[0x27, 0x02, 0xAA], false⟩ = .ok ⟨3, some 1, some (2, [])⟩ (some (.sa 2 [])) := by decide
+
+example : respond allOn exModel (rndHandler (fun _ _ => none) (fun _ _ => [])) ⟨1, none, some (1, [0xAA])⟩
+    ⟨[0x27, 0x02, 0xAA], false⟩ = .ok ⟨1, none, none⟩ (some (.neg 0x27 0x7F)) := by decide
+
+/-- sub-function rule off, `10 05`: the ECU enters a session it does not offer and the next request hits the assert -/
+example : respond (allOn.off .sfns) exModel (fun _ _ => none) ⟨1, none, none⟩ ⟨[0x10, 0x05], false⟩ =
+    .ok ⟨5, none, none⟩ (some (.dsc 5 [])) ∧
+    respond (allOn.off .sfns) exModel (fun _ _ => none) ⟨5, none, none⟩ ⟨[0x3E, 0x00], false⟩ = .crash .assertion := by
+  decide
 
 end Gallia.C13
